@@ -19,7 +19,7 @@ RULE = (
     "({space, tab+newline} elsewhere), plus leading/trailing white space; (b) every name up to the length bound over 17 "
     "characters (operators, all bracket kinds, both quotes, %, ~, |, space, a non-ASCII letter, back-slash) back-ticked "
     "alone, as an operand of + : *, and inside call / brace Python fragments, parsed and materialized against a frame "
-    "holding that column; (c) 50 Python expressions x every subset of their own token boundaries receiving a space (all "
+    "holding that column; (c) 55 Python expressions x every subset of their own token boundaries receiving a space (all "
     "single and pairwise insertions beyond 10 boundaries) x quote style x redundant parentheses, in brace and call form; "
     "(d) every string of C14's character enumerations that tokenizes.  Non-trivial = a variant that differs from the "
     "baseline rendering (a, c), a name containing a non-word character (b), a string with >= 2 tokens (d)."
